@@ -112,3 +112,94 @@ pub mod dry {
         }
     }
 }
+
+/// A canonical-token stand-in that reports arbitrary metadata (name, symbol, decimals are settable)
+/// and keeps a minimal SEP-41 style ledger (balance / transfer / mint) with real authorisation.
+pub mod faketoken {
+    use soroban_sdk::{contract, contractimpl, contracttype, Address, Env, String};
+    #[contracttype]
+    #[derive(Clone)]
+    pub enum FKey {
+        Name,
+        Symbol,
+        Decimals,
+        Bal(Address),
+    }
+    #[contract]
+    pub struct FakeToken;
+    #[contractimpl]
+    impl FakeToken {
+        pub fn set_meta(env: Env, name: String, symbol: String, decimals: u32) {
+            env.storage().instance().set(&FKey::Name, &name);
+            env.storage().instance().set(&FKey::Symbol, &symbol);
+            env.storage().instance().set(&FKey::Decimals, &decimals);
+        }
+        pub fn name(env: Env) -> String {
+            env.storage().instance().get(&FKey::Name).unwrap()
+        }
+        pub fn symbol(env: Env) -> String {
+            env.storage().instance().get(&FKey::Symbol).unwrap()
+        }
+        pub fn decimals(env: Env) -> u32 {
+            env.storage().instance().get(&FKey::Decimals).unwrap()
+        }
+        pub fn balance(env: Env, id: Address) -> i128 {
+            env.storage().persistent().get(&FKey::Bal(id)).unwrap_or(0)
+        }
+        pub fn mint(env: Env, to: Address, amount: i128) {
+            let b: i128 = env.storage().persistent().get(&FKey::Bal(to.clone())).unwrap_or(0);
+            env.storage().persistent().set(&FKey::Bal(to), &(b + amount));
+        }
+        pub fn transfer(env: Env, from: Address, to: Address, amount: i128) {
+            from.require_auth();
+            assert!(amount >= 0, "negative amount");
+            let fb: i128 = env.storage().persistent().get(&FKey::Bal(from.clone())).unwrap_or(0);
+            assert!(fb >= amount, "insufficient balance");
+            env.storage().persistent().set(&FKey::Bal(from), &(fb - amount));
+            let tb: i128 = env.storage().persistent().get(&FKey::Bal(to.clone())).unwrap_or(0);
+            env.storage().persistent().set(&FKey::Bal(to), &(tb + amount));
+        }
+    }
+}
+
+/// Receivers of inbound transfers with data (InterchainTokenExecutable): one accepts, one traps.
+pub mod receivers {
+    use soroban_sdk::{contract, contractimpl, Address, Bytes, BytesN, Env, String, Symbol};
+    #[contract]
+    pub struct AcceptingApp;
+    #[contractimpl]
+    impl AcceptingApp {
+        pub fn execute_with_interchain_token(
+            env: Env,
+            _source_chain: String,
+            _message_id: String,
+            _source_address: Bytes,
+            _payload: Bytes,
+            token_id: BytesN<32>,
+            _token_address: Address,
+            amount: i128,
+        ) {
+            env.events().publish((Symbol::new(&env, "token_executed"), token_id), amount);
+        }
+    }
+}
+pub mod trapping {
+    use soroban_sdk::{contract, contractimpl, Address, Bytes, BytesN, Env, String};
+    #[contract]
+    pub struct TrappingApp;
+    #[contractimpl]
+    impl TrappingApp {
+        pub fn execute_with_interchain_token(
+            _env: Env,
+            _source_chain: String,
+            _message_id: String,
+            _source_address: Bytes,
+            _payload: Bytes,
+            _token_id: BytesN<32>,
+            _token_address: Address,
+            _amount: i128,
+        ) {
+            panic!("receiver traps");
+        }
+    }
+}
